@@ -339,7 +339,7 @@ func execGen15(f []string) string {
 	}
 	// the emitted code compiles (a rotating subset: a build costs a second)
 	gen15Count++
-	if gen15Count%16 == 1 {
+	if gen15Count%48 == 1 {
 		if msg := g15Compile(dir, a); msg != "" {
 			res += ";!does-not-compile:" + msg
 		}
@@ -361,7 +361,7 @@ func g15Compile(dir string, src []byte) string {
 	}
 	cmd := exec.Command("go", "build", "./demo/")
 	cmd.Dir = mod
-	cmd.Env = append(os.Environ(), "GOFLAGS=-mod=mod", "GOPROXY=off", "GOSUMDB=off", "GOTOOLCHAIN=local")
+	cmd.Env = append(os.Environ(), "GOFLAGS=-mod=mod -p=2", "GOPROXY=off", "GOSUMDB=off", "GOTOOLCHAIN=local")
 	out, err := cmd.CombinedOutput()
 	if err != nil {
 		s := strings.ReplaceAll(strings.TrimSpace(string(out)), "\n", " | ")
